@@ -54,7 +54,7 @@ func (p pkgSpec) build(files map[string]string) string {
 		files[p.Dir+"/schemadir/001.sql"] = schema
 		files[p.Dir+"/schemadir/002.sql/.keep"] = "" // a directory whose name ends in .sql
 	case "empty-queries":
-		query = "SELECT 1;\n"
+		query = "-- nothing here\n"
 	case "dup-query":
 		query += fmt.Sprintf("\n-- name: Get%s :one\nSELECT id FROM %s_items;\n", strings.Title(p.Dir), p.Dir)
 	}
